@@ -4,6 +4,7 @@
 
 #include <memory>
 #include <string>
+#include <system_error>
 #include <vector>
 
 #include "../engine/explore.h"
@@ -109,6 +110,7 @@ struct Spec {
     int expiry = -1;
     bool check_tasks = false;   // C07 oracle
     bool check_stop = false;    // C08 oracle
+    int create_faults = 0;      // thread creation may fail (EAGAIN) that many times; start() then throws std::system_error, which the owner catches
     bool stateful = false;      // all schedules (no preemption bound), cut off at visited states; task life cycles judged online in cells
     int spurious = 0;           // spurious wake-ups of waiting workers the scheduler may generate per execution (each costs 1 from the bound)
 };
@@ -169,14 +171,14 @@ void run(const Spec &s) {
         case 'S': {
             int id = submitted++;
             vs_event(EV_SUBMIT, id, 0);
-            pool->start(new Task(id));
+            try { pool->start(new Task(id)); } catch (const std::system_error &) { vs_event(EV_OP_RET, 'e', 0); }      // the task was handed over before the worker could not be created: the pool owns it
             pending_since_barrier.push_back(id);
             break;
         }
         case 'F': {      // template start(): functor + one lvalue argument
             int id = submitted++;
             vs_event(EV_SUBMIT, id, 0);
-            pool->start(Functor(id), g_functor_arg);
+            try { pool->start(Functor(id), g_functor_arg); } catch (const std::system_error &) { vs_event(EV_OP_RET, 'e', 0); }
             pending_since_barrier.push_back(id);
             break;
         }
@@ -265,10 +267,11 @@ std::string ev_name(const vs_ev &e) {
 void add(VSuite &suite, Spec s, int bound, const std::string &flavour) {
     if (s.stateful && !kKnownLayout) return;      // the stateful pass needs the complete state of the pool
     VProgram p;
-    p.name = s.script + "-max" + std::to_string(s.maxThreads) + (s.expiry >= 0 ? "-expiry" + std::to_string(s.expiry) : "") + (s.spurious ? "+spurious" : "") + (s.stateful ? "@all" : "");
-    p.spurious = s.spurious; p.stateful = s.stateful;
+    p.name = s.script + "-max" + std::to_string(s.maxThreads) + (s.expiry >= 0 ? "-expiry" + std::to_string(s.expiry) : "") + (s.spurious ? "+spurious" : "") + (s.create_faults ? "+nothread" : "") + (s.stateful ? "@all" : "");
+    p.spurious = s.spurious; p.stateful = s.stateful; p.create_faults = s.create_faults;
     p.describe = "owner script " + s.script + " (S start task, F start a functor through the template start(), C clear, X stop, W wait until all submitted tasks are destroyed, U update, A advance the clock past the expiry timeout, G getters), maxThreadCount=" +
-                 std::to_string(s.maxThreads) + ", expiryTimeout=" + std::to_string(s.expiry) + "; every task has a scheduling point inside run()" + (s.spurious ? "; one spurious wake-up of a waiting worker may happen anywhere (costs 1 like a preemption)" : "");
+                 std::to_string(s.maxThreads) + ", expiryTimeout=" + std::to_string(s.expiry) + "; every task has a scheduling point inside run()" + (s.spurious ? "; one spurious wake-up of a waiting worker may happen anywhere (costs 1 like a preemption)" : "") +
+                 (s.create_faults ? "; the creation of one worker thread may fail with EAGAIN (costs 1 like a preemption): start() throws, the owner catches and carries on" : "");
     p.bound = bound;
     p.unlock_points = true;         // ThreadPool publishes flags outside its mutexes: make every release a scheduling point
     p.body = [s] { if (s.stateful) run_stateful(s); else run(s); };
@@ -315,6 +318,9 @@ bool provider(const std::string &prop, const std::string &tier, const std::strin
         for (int mt : {1, 2}) for (const char *sc : {"SWX", "SXSWX"}) { Spec s = base; s.script = sc; s.maxThreads = mt; s.stateful = true; s.spurious = 1; add(suite, s, 0, flavour); }
         if (thorough) for (const char *sc : {"SSSWX", "SSCSX", "SSXSSWX"}) { Spec s = base; s.script = sc; s.maxThreads = 2; s.stateful = true; add(suite, s, 0, flavour); }
     }
+    // thread creation fails once (EAGAIN): start() throws after it has queued the task; the pool owns the task all the same - destroyed exactly once, never run after destruction
+    // (scripts without W: a task whose worker could not be created need not run before stop())
+    for (int mt : {1, 2}) for (const char *sc : {"SX", "SSX", "FX", "FSX", "SFCX", "FFX"}) { Spec s = base; s.script = sc; s.maxThreads = mt; s.create_faults = 1; add(suite, s, 2, flavour); }
     // spurious wake-ups of idle workers (POSIX allows them for every condition wait)
     for (int mt : {1, 2}) for (const char *sc : {"SWX", "SWSWX", "SCSWX", "SXSWX"}) { Spec s = base; s.script = sc; s.maxThreads = mt; s.spurious = 1; add(suite, s, thorough ? 3 : 2, flavour); }
     if (thorough) {
